@@ -15,6 +15,10 @@
 // after every restart: persisted conns == live conns, {conn | !undesired && !hotplug-gone} == repository
 // connections (ids, interface, static and dynamic attributes), and the last security setup of every
 // installed snap was made with exactly the connections the repository has now.
+// Determinism: one task runs at a time; the runner's visiting order is owned through hook H2 (injected
+// failure first, then tasks grouped by the connection they work for, then by task id), because
+// batchConnectTasks and Repository.Connections create the task sets of several auto-(dis)connections in Go
+// map order. Every reported mismatch is re-run 4 more times on fresh fixtures first.
 package ifacestate_test
 
 import (
